@@ -30,6 +30,8 @@ Round 5: `check_simtable` — ONE call of simulate_GATK_multisample_calling with
      globals `ss`, `rng`, `simulate_reads`, `subsample_genotypes_1D`): L3 from the recorded draws (probability table made of multiples of
      1/#loci, reads = f(genotype, depth, draw), depths in the support, entry 0 holds at least the loci without two alternative reads),
      K `simtable` (the model's `simTable` on the same draws, exactly), `simcount` (loci per aggregate partition = int(nsim p)), `simfit`;
+     `check_simpipeline` — a whole corrected model (simulated / mixed regime, small sizes) with all draws recorded: K `corrected:draws`, the
+     model computes the simulated tables itself from the draws and assembles the output (the object of C18_total_le_simulated);
      the proved entry-wise deep-coverage bound ((1 + D) + sum nsub) 2^-D |model|_1 replaces the heuristic of `deep_check` where its
      hypotheses hold and is evaluated where informative (`deep_l1_check`, K `deepentry`).
 History: every single-function case starts from freshly reloaded LowPass module state, and `check_history` builds several
@@ -1173,11 +1175,11 @@ class DrawRecorder:
     """records every random draw of `simulate_GATK_multisample_calling` (depths: `ss.rv_discrete(...).rvs`, alternative reads of
     heterozygotes: `ss.binom.rvs`, subsampling permutations: `rng.permuted`) together with the call structure
     (`simulate_reads` / `subsample_genotypes_1D` boundaries), by wrapping the module globals the simulator looks up."""
-    def __init__(self, LP):
-        self.LP = LP; self.ev = []; self.saved = {}
+    def __init__(self, LP, tables=False):
+        self.LP = LP; self.ev = []; self.saved = {}; self.tables = tables
     def __enter__(self):
         LP = self.LP; ev = self.ev
-        for k in ('ss', 'rng', 'simulate_reads', 'subsample_genotypes_1D'):
+        for k in ('ss', 'rng', 'simulate_reads', 'subsample_genotypes_1D', 'simulate_GATK_multisample_calling'):
             self.saved[k] = getattr(LP, k)
         ss0, rng0, sr0, sub0 = self.saved['ss'], self.saved['rng'], self.saved['simulate_reads'], self.saved['subsample_genotypes_1D']
         def rv_discrete(*a, **k):
@@ -1197,7 +1199,12 @@ class DrawRecorder:
             ev.append(('sub', int(n), np.array(g))); r = sub0(g, n, *a, **k); ev.append(('sub-end', np.array(r))); return r
         LP.ss = _Fwd(ss0, rv_discrete=rv_discrete, binom=_Fwd(ss0.binom, rvs=binom_rvs))
         LP.rng = _Fwd(rng0, permuted=permuted)
+        sim0 = self.saved['simulate_GATK_multisample_calling']
+        def simulate(cov, af, *a, **k):
+            ev.append(('table', tuple(int(x) for x in af))); r = sim0(cov, af, *a, **k); ev.append(('table-end', np.array(r))); return r
         LP.simulate_reads = simulate_reads; LP.subsample_genotypes_1D = subsample
+        if self.tables:
+            LP.simulate_GATK_multisample_calling = simulate
         return self
     def __exit__(self, *exc):
         for k, v in self.saved.items():
@@ -1366,6 +1373,77 @@ def check_simtable(chk, ctx, sc):
         chk.k_ok('simcount')
     else:
         chk.k_bad('simcount', inp, got, mc, None)
+
+def check_simpipeline(chk, ctx, case):
+    """the whole corrected model in the simulated / mixed regime with every random draw recorded: K `corrected:draws` — the Lean model
+    computes the simulated tables itself from the recorded draws (`simTable`) and assembles the output, i.e. evaluates
+    `corrected (axesOf pops) thr model (fun i => simTable pops i (draws i))`, the object of C18_total_le_simulated; L3: closure
+    (finite, non-negative, total <= uncorrected total)."""
+    inp = small_case(case, 'sim-pipeline')
+    pops = case['pops']; d = len(pops)
+    nseq = [p['nseq'] for p in pops]; nsub = [p['nsub'] for p in pops]
+    LP = fresh_LP(ctx)
+    try:
+        with warnings.catch_warnings():
+            warnings.simplefilter('ignore')
+            f, func, calls = build_lowpass(ctx, LP, case)
+            np.random.seed(case['sim_seed'] % (2 ** 32)); LP.rng = np.random.default_rng(case['sim_seed'])
+            with DrawRecorder(LP, tables=True) as rec:
+                out = f([], list(nsub), None)
+            model = func([], list(nseq), None)
+    except Exception as e:
+        chk.fail('make_low_pass_func:raises:%s' % type(e).__name__, 'corrected model for nseq=%r nsub=%r thr=%r raises %r' % (nseq, nsub, case['thr'], e), inp)
+        return
+    finally:
+        fresh_LP(ctx)
+    chk.l3(('sim-pipeline', d, regime_of(case), any(p['F'] > 0 for p in pops), tuple(a == b for a, b in zip(nseq, nsub))))
+    chk.stat('sim_pipeline_%dpop' % d)
+    if not closure_checks(chk, case, model, out, inp):
+        return
+    if not have_driver(ctx) or any(0 < p['F'] < TINY_F for p in pops):
+        return
+    # split the events by simulated table
+    tables = []; cur = None
+    for e in rec.ev:
+        if e[0] == 'table':
+            cur = (e[1], []); tables.append(cur)
+        elif e[0] == 'table-end':
+            cur = None
+        elif cur is not None:
+            cur[1].append(e)
+        else:
+            chk.k_bad('corrected:draws', inp, 'recorded draws', 'a random draw outside simulate_GATK_multisample_calling: %s' % e[0], None); return
+    bounds = [0] + [int(v) for v in np.cumsum([n // 2 for n in nseq])]
+    parts = []
+    try:
+        for af, evs in tables:
+            blocks = blocks_from_events(evs, nseq, nsub)
+            for b in blocks: b['bounds'] = bounds
+            parts.append('%s=%s' % ('.'.join(map(str, af)), fmt_blocks(blocks, d)))
+    except DrawStructure as e:
+        chk.k_bad('corrected:draws', inp, 'recorded draws', str(e), None); return
+    mdata = model_data(model); scale = max(float(np.max(np.abs(mdata))), 1e-300)
+    popstr = ';'.join('%s@%d@%d@%s' % (fmt_list(p['cov']), p['nseq'], p['nsub'], rat(0.0 if case.get('Fx_none') else p['F'])) for p in pops)
+    o = ctx['driver'].ask('lp_corrected_draws %s %s %s %s' % (rat(case['thr']), popstr, fmt_nd(mdata), '!'.join(parts) if parts else '-'))
+    if not o.startswith('ok '):
+        # a borderline threshold can make the two sides simulate different entries
+        chk.k_bad('corrected:draws', inp, unmasked(out), o[:300], None); return
+    ok, err, _ = close(unmasked(out), parse_ndf(o[3:]), rtol=RTOL, atol=RTOL * scale)
+    chk.k_ok('corrected:draws') if ok else chk.k_bad('corrected:draws', inp, unmasked(out), o[:300], err)
+    chk.stats['sim_pipeline_tables'] = chk.stats.get('sim_pipeline_tables', 0) + len(tables)
+
+def gen_simpipeline(rng, tier):
+    d = int(rng.choice([1, 1, 2]))
+    hi = {1: 8, 2: 4}[d]
+    pops = []
+    for _ in range(d):
+        nseq, nsub = gen_sizes(rng, hi)
+        c, ck = gen_cov(rng, ['poisson', 'poisson', 'geometric', 'two-point', 'mostly-zero', 'uniform', 'no-zero-depth'][int(rng.integers(7))])
+        F = 0.0 if rng.random() < 0.5 else float(rng.choice([51, 205, 512, 922])) / 1024.0
+        pops.append(dict(cov=c, cov_kind=ck, nseq=nseq, nsub=nsub, F=F))
+    data, mk = gen_model(rng, [p['nseq'] + 1 for p in pops])
+    thr = 0.0 if rng.random() < 0.6 else float(rng.choice([1e-2, 0.25]))
+    return dict(pops=pops, thr=thr, nsim=int(rng.choice([30, 100])), sim_seed=int(rng.integers(1, 2 ** 31)), data=data, mask=None, model_kind=mk, Fx_none=False, deep=False)
 
 def gen_simtable(rng, tier):
     d = int(rng.choice([1, 1, 2, 2, 3]))
@@ -1755,6 +1833,8 @@ def run(chk, ctx):
     # ---- the simulator as a function of its recorded random draws (K: the model's simTable on the same draws, exactly)
     for it in range(40 if quick else 300):
         check_simtable(chk, ctx, gen_simtable(rng, tier))
+    for it in range(12 if quick else 80):
+        check_simpipeline(chk, ctx, gen_simpipeline(rng, tier))
     # ---- several low-pass functions in one process (same population names): history independence
     nh = 40 if quick else 220
     for it in range(nh):
@@ -1798,6 +1878,8 @@ def replay(chk, ctx, data):
         check_subsample(chk, ctx, inp)
     elif kind == 'simtable':
         check_simtable(chk, ctx, inp)
+    elif kind == 'sim-pipeline':
+        check_simpipeline(chk, ctx, case_from_json(inp))
     elif kind == 'axis-dev':
         check_axis_dev(chk, ctx, [float(v) for v in inp['cov']], int(inp['nseq']), int(inp['nsub']), float(inp['F']))
     elif kind == 'defined':
